@@ -9,12 +9,18 @@ import (
 
 // failWriter accepts k bytes in total, then fails (short write + error).
 type failWriter struct {
-	k     int
-	acc   bytes.Buffer
-	calls []string // data-less calls (Flush, Sync, Close) the library made
+	k         int
+	acc       bytes.Buffer
+	calls     []string // data-less calls (Flush, Sync, Close) the library made
+	transient bool     // only the Write that crosses offset k fails; later ones are accepted again
+	failed    bool
 }
 
 func (w *failWriter) Write(p []byte) (int, error) {
+	if w.transient && w.failed {
+		w.acc.Write(p)
+		return len(p), nil
+	}
 	room := w.k - w.acc.Len()
 	if len(p) <= room {
 		w.acc.Write(p)
@@ -24,6 +30,7 @@ func (w *failWriter) Write(p []byte) (int, error) {
 		room = 0
 	}
 	w.acc.Write(p[:room])
+	w.failed = true
 	return room, errInjected
 }
 
@@ -161,6 +168,19 @@ func runC10Write(c Case, m *Model, v *Verdict) {
 		}
 		if err == nil && (size != int64(fw.acc.Len()) || !bytes.Equal(fw.acc.Bytes(), full.Bytes())) {
 			v.Oracle = append(v.Oracle, fmt.Sprintf("WriteTo returned nil with size %d but the destination holds %d bytes (file has %d) :: %s", size, fw.acc.Len(), n, short(c.Op)))
+		}
+		// the same offset as a transient failure: that one Write fails (short), the destination recovers afterwards
+		if k < n {
+			ft := &failWriter{k: k, transient: true}
+			var errT error
+			if p := try(func() { _, errT = h.build().WriteTo(writerVariant(ft, i+1)) }); p != "" {
+				v.Oracle = append(v.Oracle, fmt.Sprintf("panic while writing into a destination with a transient failure (k=%d): %s", k, p))
+				return
+			}
+			v.Counts["write-faults-transient"]++
+			if ft.failed && errT == nil {
+				v.Oracle = append(v.Oracle, fmt.Sprintf("one Write of the destination failed (at offset %d of %d, later Writes succeeded) but WriteTo returned nil :: %s", k, n, short(c.Op)))
+			}
 		}
 		// tie
 		mf := fields(m.Ask(c.Op + " failat=" + strconv.Itoa(k)))
